@@ -5,7 +5,7 @@ from clustergen import *
 ID = "C04"
 DRIVER = "cluster"
 MODEL_FILES = ["Model/Base.v", "Model/Parse.v", "Model/Node.v", "Model/Pending.v", "Model/Oplog.v", "Model/Cluster.v"]
-THEOREMS = ["C04_replicate_roundtrip", "C04_replicate_remove_roundtrip", "C04_replicate_increment_roundtrip", "C04_create_db_roundtrip", "C04_rp_roundtrip", "C04_set_value_rel", "C04_remove_value_rel", "C04_inc_value_rel", "C04_replay_converges", "C04_replay_same_content", "C04_handle_set_effect", "C04_handle_replicate_set_effect", "C04_handle_remove_effect", "C04_handle_replicate_remove_effect", "C04_handle_increment_effect", "C04_handle_replicate_increment_effect", "C04_live_set_converges", "C04_live_remove_converges", "C04_live_increment_converges", "C04_leader_repl_one", "C04_replay_order_matters"]
+THEOREMS = ["C04_replicate_roundtrip", "C04_replicate_remove_roundtrip", "C04_replicate_increment_roundtrip", "C04_create_db_roundtrip", "C04_rp_roundtrip", "C04_set_value_rel", "C04_remove_value_rel", "C04_inc_value_rel", "C04_replay_converges", "C04_replay_same_content", "C04_handle_set_effect", "C04_handle_replicate_set_effect", "C04_handle_remove_effect", "C04_handle_replicate_remove_effect", "C04_handle_increment_effect", "C04_handle_replicate_increment_effect", "C04_live_set_converges", "C04_live_remove_converges", "C04_live_increment_converges", "C04_leader_repl_one", "C04_replay_order_matters", "C04_converges", "C04_convergence_invariant", "C04_converges_reads", "C04_primary_write_queues", "C04_replicated_line_applies", "C04_formed_example", "C04_formed_run_converges", "C04_opp_ids_differ"]
 STRENGTH = {t: "proof-unbounded" for t in THEOREMS}
 RULE = ("clusters of 2-3 real Databases (replication thread and supervisor futures polled by hand, links emulated by explicit "
         "deliver/reply steps); operation sequences of length 1-8 over {set, set-safe, remove, increment, create-db, create-user, "
